@@ -283,7 +283,7 @@ func checkC08Prog(t *fw.T, r *rand.Rand, prog *gen.Node) {
 	}
 	all := prettyCfgs()
 	cfgs := []Cfg{{}, CfgPretty, all[r.IntN(20)], all[r.IntN(20)]}
-	if t.Thorough() {
+	if t.Thorough() && !limitCfgs {
 		cfgs = append([]Cfg{{}}, all...)
 	}
 	for _, c := range cfgs {
